@@ -6,6 +6,7 @@
   depends on alignment, the pointer bounds, and which words are registered addresses).
 -/
 import Cello.Heap
+import Cello.HeapRec
 import Std.Data.HashMap
 import Std.Data.HashSet
 
@@ -412,7 +413,15 @@ def MState.step (st : MState) (w : List String) : MState × List String :=
     let freed := pending.filterMap idOfAddr
     let st' := { st with objs := freed.foldl (fun o i => o.erase i) st.objs
                          nMarked := st.nMarked + marked.length, nFreed := st.nFreed + freed.length, nCollect := st.nCollect + 1 }
-    (st', [s!"O x marked={setText marked} freed={setText freed}"])
+    -- cross-check inside the model: the marker with the call structure of GC.c (depth budget 4n+64) sets the same bits
+    let recTxt :=
+      if st.objs.size ≤ 4000 then
+        match gcMarkRec hashSet Cfg.current h (4 * st.objs.size + 64) (threadObj st) words with
+        | .ok m2 => if st.objs.keys.all (fun i => m.contains (addrOf i) == m2.contains (addrOf i)) then "agree" else "differ"
+        | .deep => "deep"
+        | .ub => "ub"
+      else "skipped"
+    (st', [s!"O x marked={setText marked} freed={setText freed}", s!"R rec={recTxt}"])
   | ["collect"] =>
     if !st.full then bad st else
     let (st', live) := st.checkpoint
